@@ -50,6 +50,13 @@ pub mod downlink_lifecycle;
 pub mod event_handler;
 
 mod event_queue;
+
+/// Re-exports for the external verification harness (feature `verif`).
+#[cfg(feature = "verif")]
+pub mod verif_hooks {
+    pub use crate::event_queue::EventQueue;
+    pub use crate::lanes::verif_hooks as lanes;
+}
 mod item;
 
 /// Defines the lane types that can be included in agent specifications. Lanes are exposed externally by the runtime,
